@@ -23,7 +23,7 @@ ORACLES = ('store', 'exact', 'dedup')
 
 
 def gen_case(seed, tier):
-    case = history.gen_history(seed, 'c07', max_users=4 if tier == 'thorough' else 3, nops=(3, 24) if tier == 'thorough' else (3, 10), destructive=True, overlap=False, reads=False)
+    case = history.gen_history(seed, 'c07', max_users=4 if tier == 'thorough' else 3, nops=(3, 24) if tier == 'thorough' else (3, 10), destructive=True, overlap=False, reads=False, many=0.08, services=True)
     return case
 
 
